@@ -5,7 +5,7 @@
    terms run over Q in the correspondence (Geom/RunC09.v).  Distances are squared distances (see the
    header of Danielsson.v). *)
 From Coq Require Import Reals QArith List.
-From OM Require Import Base.Ops Geom.V3Q Geom.V3R Geom.Danielsson Geom.DanielssonProofs Geom.SensorsModel Geom.ScanProofs Geom.C09Witness.
+From OM Require Import Base.Ops Geom.V3Q Geom.V3R Geom.Danielsson Geom.DanielssonProofs Geom.SensorsModel Geom.ScanProofs Geom.C09Witness Geom.NearestProofs Geom.ClosestOracleModel Geom.ClosestOracle.
 Import ListNotations.
 Local Open Scope R_scope.
 
@@ -30,15 +30,25 @@ Theorem dpc_ignores_initial_alphas : forall p T al0 al0',
 Proof. exact DanielssonProofs.dpc_ignores_initial_alphas. Qed.
 Print Assumptions dpc_ignores_initial_alphas.
 
-(* nearest point, partial: EXTRA HYPOTHESIS inside = true (no barycentric coordinate of the orthogonal projection is
-   negative, i.e. nothing is clamped).  The clamped leaves are not covered by a theorem: the check classifies them
-   with an exact oracle (design/C09.md); beyond an obtuse corner the statement is false (next theorem). *)
-Theorem dpc_nearest_partial : forall p T al0 d2 al,
-  dist_point_triangle Rops p T al0 = DOk d2 al true ->
+(* nearest point, PARTIAL, all ten leaves (interior, three edges, six clamped-vertex paths).  EXTRA HYPOTHESIS
+   [no_obtuse_corner_on_clamped_side p T]: with (cA,cB,cC) the barycentric coordinates of the orthogonal projection of
+   p on the plane of T, whenever two of them are negative the angle of T at the third vertex is not obtuse.
+   Without it the statement is false (next theorem: the witness has cA<0, cC<0 and an obtuse angle... at the vertex
+   that stays). *)
+Theorem dpc_nearest_partial : forall p T al0 d2 al ins,
+  dist_point_triangle Rops p T al0 = DOk d2 al ins -> no_obtuse_corner_on_clamped_side p T ->
   forall a b c, 0 <= a -> 0 <= b -> 0 <= c -> a + b + c = 1 ->
   d2 <= vnorm2 Rops (vsub Rops p (recon Rops T (a, b, c))).
-Proof. exact DanielssonProofs.dpc_nearest_inside. Qed.
+Proof. exact NearestProofs.dpc_nearest_all_leaves. Qed.
 Print Assumptions dpc_nearest_partial.
+
+(* the independent oracle used as the reference by the check is sound: what it returns is a nearest point *)
+Theorem closest_oracle_sound : forall p T al, closest_oracle Rops p T = Some al ->
+  0 <= get3 al 0 /\ 0 <= get3 al 1 /\ 0 <= get3 al 2 /\ get3 al 0 + get3 al 1 + get3 al 2 = 1 /\
+  forall a b c, 0 <= a -> 0 <= b -> 0 <= c -> a + b + c = 1 ->
+    vnorm2 Rops (vsub Rops p (recon Rops T al)) <= vnorm2 Rops (vsub Rops p (recon Rops T (a, b, c))).
+Proof. exact ClosestOracle.closest_oracle_sound. Qed.
+Print Assumptions closest_oracle_sound.
 
 (* dpc is NOT always a nearest point: rational witness (DESIGN 4 row 13), replayed on the code by the check.
    The triangle contains a point at squared distance 1 from p, dpc answers vertex A at 194/25. *)
